@@ -428,6 +428,18 @@ func acceptanceScopes(r *compileRun, tier string) {
 			}
 		}
 		forms = append(forms, &seccomp.Policy{DefaultAction: seccomp.ActionAllow, Syscalls: []seccomp.SyscallGroup{many}})
+		// lists of many conditions: every count 1..16, arguments repeated (range checks on several arguments), and one list of 40
+		for _, cnt := range []int{1, 2, 3, 4, 5, 6, 7, 8, 9, 10, 11, 12, 13, 14, 15, 16, 40} {
+			var l seccomp.ArgumentConditions
+			for i := 0; i < cnt; i++ {
+				op := seccomp.GreaterOrEqual
+				if i%2 == 1 {
+					op = seccomp.LessOrEqual
+				}
+				l = append(l, seccomp.Condition{Argument: uint32(i/2) % 6, Operation: op, Value: uint64(10 + 100*(i%2) + i)})
+			}
+			forms = append(forms, &seccomp.Policy{DefaultAction: seccomp.ActionAllow, Syscalls: []seccomp.SyscallGroup{{Action: seccomp.ActionErrno, NamesWithCondtions: []seccomp.NameWithConditions{{Name: all[0], Conditions: l}}}}})
+		}
 		for _, f := range forms {
 			r.one("accept/forms/"+a.Name, a, f, engine.Options{SkipDecision: true})
 		}
